@@ -106,3 +106,29 @@ def guarded_lookup(live, value):
         if ("cmp", "isnot", value, NONE) in conj or value in conj:
             return value[1][1], value[2][0]
     return None
+
+
+def minmax_form(t):
+    """('min'|'max', frozenset({a, b})) when t is min(a, b) / max(a, b) or the conditional spelling of one
+    (`a if a < b else b`, `if b < a: a = b`, with < or <=), else None."""
+    if t[0] == "call" and t[1] in (("builtin", "min"), ("builtin", "max")) and len(t[2]) == 2 and not t[3]:
+        return t[1][1], frozenset(t[2])
+    if t[0] == "ite" and t[1][0] == "cmp" and t[1][1] in ("lt", "le"):
+        lo, hi = t[1][2], t[1][3]  # condition: lo < hi
+        if (t[2], t[3]) == (lo, hi):
+            return "min", frozenset((lo, hi))
+        if (t[2], t[3]) == (hi, lo):
+            return "max", frozenset((lo, hi))
+    return None
+
+
+def norm_minmax(t):
+    """Rewrite every conditional spelling of a two-argument min / max inside t to the call form (arguments sorted)."""
+    if not isinstance(t, tuple) or not t:
+        return t
+    t = tuple(norm_minmax(c) if isinstance(c, tuple) else c for c in t)
+    if isinstance(t[0], str):
+        m = minmax_form(t)
+        if m is not None:
+            return ("call", ("builtin", m[0]), tuple(sorted(m[1], key=repr)), ())
+    return t
